@@ -270,6 +270,7 @@ func closeChecks(r *Result) {
 	closeDuringRequest(r)
 	idleReapingAllListeners(r)
 	refusedPeersAreNotCounted(r)
+	limitLoweredAtRuntime(r)
 	stopUnderConnectStorm(r, stormRounds)
 	if h1 != 0 || a1 != 0 {
 		r.violate(Violation{Class: "C17/close-with-inflight-handler", What: fmt.Sprintf("a LOOKUP still inside the backend when Close returned put %d handle(s) and %d attribute-cache entr(ies) back afterwards", h1, a1),
@@ -484,6 +485,60 @@ func idleReapingAllListeners(r *Result) {
 // refusedPeersAreNotCounted: a connection the host filter refuses at accept has ended; it must not occupy a
 // MaxConnections slot. Disallowed peers (127.0.0.2, when the machine lets a client bind it) connect more often than
 // the limit, then an allowed client must be served and the counters must be back to what it alone accounts for.
+// limitLoweredAtRuntime: MaxConnections is a runtime-tunable bound. Lowered below the number of connections already
+// open, it admits nobody until enough of them have ended; it never stops bounding.
+func limitLoweredAtRuntime(r *Result) {
+	n, err := absnfs.New(NewRefFS(), absnfs.ExportOptions{MaxConnections: 4, IdleTimeout: 5 * time.Minute, MaxWorkers: 2})
+	must(err)
+	defer n.Close()
+	s, err := absnfs.NewServer(absnfs.ServerOptions{Port: 0, Hostname: "127.0.0.1", UseRecordMarking: true})
+	must(err)
+	s.SetHandler(n)
+	must(s.Listen())
+	defer s.Stop()
+	addr := fmt.Sprintf("127.0.0.1:%d", s.GetPort())
+	served := func() (net.Conn, bool) {
+		c, err := net.DialTimeout("tcp", addr, 2*time.Second)
+		if err != nil {
+			return nil, false
+		}
+		c.SetDeadline(time.Now().Add(2 * time.Second))
+		if _, err := rmCall(c, 77, progNFS, 3, 0, nil); err != nil {
+			c.Close()
+			return nil, false
+		}
+		return c, true
+	}
+	var open []net.Conn
+	defer func() {
+		for _, c := range open {
+			c.Close()
+		}
+	}()
+	for i := 0; i < 4; i++ {
+		c, ok := served()
+		if !ok {
+			r.Notes = append(r.Notes, "limit-lowered scenario skipped: could not open 4 connections under MaxConnections 4")
+			return
+		}
+		open = append(open, c)
+	}
+	r.noteCase("limit-lowered", true)
+	r.count("limit-lowered")
+	n.UpdateTuningOptions(func(tu *absnfs.TuningOptions) { tu.MaxConnections = 2 })
+	extra := 0
+	for i := 0; i < 6; i++ {
+		if c, ok := served(); ok {
+			extra++
+			open = append(open, c)
+		}
+	}
+	cnt, _ := absnfs.VerifConnCounts(s)
+	if extra > 0 {
+		r.violate(Violation{Class: "C17/over-limit-after-lowering", What: fmt.Sprintf("with 4 connections open MaxConnections was lowered to 2; %d further connections were then admitted and served (connCount=%d)", extra, cnt), Ops: []string{"limit-lowered"}})
+	}
+}
+
 func refusedPeersAreNotCounted(r *Result) {
 	n, err := absnfs.New(NewRefFS(), absnfs.ExportOptions{AllowedIPs: []string{"127.0.0.1"}, MaxConnections: 2, IdleTimeout: 5 * time.Minute, MaxWorkers: 2})
 	must(err)
